@@ -545,6 +545,40 @@ func runOperator(o *opDef, n int, only int, lim limits, deadline time.Time) map[
 
 // ---- verdicts -------------------------------------------------------------------------------------------------------------
 
+// deepHas: does v or any value nested in it satisfy p?
+func deepHas(v tla.Value, p func(tla.Value) bool) bool {
+	if p(v) {
+		return true
+	}
+	switch {
+	case v.IsSet():
+		it := v.AsSet().Iterator()
+		for !it.Done() {
+			k, _, _ := it.Next()
+			if deepHas(k, p) {
+				return true
+			}
+		}
+	case v.IsTuple():
+		it := v.AsTuple().Iterator()
+		for !it.Done() {
+			_, e := it.Next()
+			if deepHas(e, p) {
+				return true
+			}
+		}
+	case v.IsFunction():
+		it := v.AsFunction().Iterator()
+		for !it.Done() {
+			k, x, _ := it.Next()
+			if deepHas(k, p) || deepHas(x, p) {
+				return true
+			}
+		}
+	}
+	return false
+}
+
 func kindOf(v tla.Value) string {
 	switch {
 	case v.IsBool():
@@ -726,7 +760,16 @@ func judge(c tcase, T oracleEntry, G goRes, oracle map[string]oracleEntry) verdi
 			}
 			return verdict{Class: "agree-value"}
 		}
-		// TLC.tla leaves the string unspecified; it must denote the argument
+		if !deepHas(args[0], func(v tla.Value) bool { return v.IsFunction() || v.IsString() }) {
+			// sets and tuples of numbers / booleans: Go's and TLC's notation coincide, and TLC's element order is a
+			// function of the values (numbers numerically, sets by size then element-wise): the string must be TLC's
+			if G.Canon != tc {
+				return viol("wrong-value", "returns "+G.Canon)
+			}
+			return verdict{Class: "agree-value"}
+		}
+		// functions print in another notation than TLC's, and TLC orders strings by interning order (not a function
+		// of the values): there the string only has to denote the argument (TLC.tla leaves it unspecified)
 		den, err := tlabridge.ParseValue(gv.AsString(), tlabridge.ParseOptions{Normalize: true})
 		if err != nil || tlabridge.Canon(den) != tlabridge.Canon(args[0]) {
 			return viol("wrong-value/does-not-denote-argument", "returns "+G.Canon)
@@ -739,7 +782,12 @@ func judge(c tcase, T oracleEntry, G goRes, oracle map[string]oracleEntry) verdi
 		if G.Canon == tc {
 			return verdict{Class: "agree-value"}
 		}
-		// any satisfying element is a legal CHOOSE; the satisfying ones are TLC's {x \in S : P}
+		// TLC takes the least satisfying element in its order of values, which is a function of the values for
+		// everything but strings (ordered by interning order, i.e. by the history of the TLC run): only when the
+		// candidates contain a string is another satisfying element accepted
+		if !deepHas(args[0], func(v tla.Value) bool { return v.IsString() }) {
+			return viol("wrong-value", "chooses "+G.Canon)
+		}
 		sat, ok := oracle[fmt.Sprintf(`{x \in %s : %s}`, c.Args[0], o.Choose)]
 		if ok && sat.OK {
 			if sv, err := tlabridge.ParseValue(sat.Value, tlabridge.ParseOptions{Normalize: true}); err == nil && sv.IsSet() {
@@ -779,8 +827,8 @@ func TestCheck(t *testing.T) {
 			"oracle = TLC (tla2tools 1.8.0) evaluating the same expression as TLA+ text; the committed table /verif/oracle/c03.jsonl is TLC's output and is regenerated and diffed in the thorough tier",
 			"values are compared after TLC's own identification: a function over 1..n is the tuple of its values, the empty function is <<>>",
 			"Go failing with ErrTLAType where TLC gives a value is accepted only for: a tuple where the operator needs a function or a function where it needs a tuple; EXCEPT on a key outside the domain",
-			"CHOOSE: any element satisfying the predicate is accepted, but the choice must not depend on how the set was built",
-			"ToString: TLC.tla defines it as an unspecified string; required: identical to TLC for booleans/integers/strings, otherwise a string that parses back to the argument",
+			"CHOOSE must return TLC's choice (the least satisfying element in TLC's order of values) and must not depend on how the set was built; exception: TLC orders strings by interning order (the history of the TLC run, not the values), so when the candidates contain a string any satisfying element is accepted, and no CHOOSE over string candidates with a TRUE predicate is enumerated",
+			"ToString: identical to TLC's string for atoms and for sets/tuples of numbers and booleans at any depth (same notation, element order a function of the values); for values containing functions/records (Go prints :> @@ notation) or strings inside collections (TLC's order of strings is its interning order) a string that parses back to the argument; always independent of construction order",
 			"TLC refuses to compare a record with a non-record function although TLA+ defines the result; there Go's answer is accepted if it is the TLA+-defined one",
 			"a hang is declared when one evaluation has burnt 5 s (thorough 20 s) of CPU or 1.5 GB of heap on arguments of at most 3 elements; wall-clock slowness alone is never a verdict",
 			"intervals a..b with more than 7 elements are not enumerated (nobody can build a 2^32 element set)",
